@@ -10,12 +10,16 @@ RUN_MODULE = "RunC14"
 DRIVER = "matcher_driver.py"
 SHARD = 1200
 RULE = ("exhaustive small universe: filters = atoms + lists of <=2 atoms + operator objects (7 operator texts x atoms) "
-        "against recorded atoms or an absent key, plus random deeper filters/values; non-trivial = filter is not a "
+        "against recorded atoms or an absent key, plus random deeper filters/values; stream `special floats` (implementation "
+        "side only, deterministic): NaN / +-Infinity, bare and inside lists, as recorded value and as filter value (operator "
+        "objects with all 7 operator texts, plain filters, lists of alternatives) against each other, ordinary numbers, big "
+        "ints, lists, strings, None and an absent key - the answer must be Python's own comparison; non-trivial = filter is not a "
         "plain non-string atom; distinct = distinct (filter, recorded)")
 EXHAUSTIVE = {"quick": True, "thorough": True}
 ASSUMPTIONS = ["fnmatch on two strings is an oracle (Coq: section variable glob; runs: literals,?,* in Coq, "
                "character classes on the implementation side against Python's own fnmatch)",
-               "finite floats only (exact rationals); NaN outside the domain"]
+               "model: finite floats only (exact rationals); NaN and the infinities (bare and inside lists, either side, every "
+               "operator) run on the implementation side only, against Python's own comparison"]
 TRUSTED = ["harness-side re-statement of the documented meaning (spec_match) used as direct predicate"]
 
 ATOMS = [pv.none(), pv.b(True), pv.b(False), pv.i(0), pv.i(1), pv.i(2), pv.fl(3, 2), pv.fl(1, 1),
@@ -70,6 +74,12 @@ def generate(rng, tier):
         for v in vals:
             cases.append(dict(filter=pv.s(p), recorded=pv.s(v), nocoq=True))
             cases.append(dict(filter=pv.lst([pv.i(3), pv.s(p)]), recorded=pv.s(v), nocoq=True))
+    # values without a total order: NaN (unequal to everything, itself included; neither lower nor greater than anything) and
+    # the infinities, as recorded value and as filter value, bare and inside lists (a list containing a NaN compares through
+    # it), under every operator, as plain filter and as alternative.  Implementation side only: the model's floats are
+    # exact rationals; the predicate is Python's own comparison (spec_match).  NaN is a reachable metadata value: json and
+    # jsonpickle write it as NaN and read it back.
+    cases += special_float_cases()
     n = 1500 if tier == "quick" else 20000
     for _ in range(n):
         f = rand_val(rng, 3)
@@ -83,6 +93,40 @@ def generate(rng, tier):
         if json_native(c["filter"]) and json_native(c["recorded"]):
             c["json_native"] = True
     return cases
+
+
+NAN, INF, NINF = ({"t": "float", "r": r} for r in ("nan", "inf", "-inf"))
+SPECIAL_FLOATS = [NAN, INF, NINF]
+
+
+def special_float_cases():
+    ordinary = [pv.i(0), pv.i(5), pv.fl(3, 2), pv.b(True), pv.i(2**70), pv.i(-2**70)]
+    side = SPECIAL_FLOATS + [pv.lst([NAN]), pv.lst([pv.i(1), NAN]), pv.lst([pv.i(1), INF]), pv.lst([NAN, pv.i(1)])]
+    others = ordinary + [pv.lst([pv.i(1)]), pv.lst([pv.i(1), pv.i(2)]), pv.lst([pv.i(2)]), pv.lst([])]
+    out = []
+    pairs = [(a, b_) for a in side for b_ in side + others + [pv.s("a"), pv.none()]]
+    pairs += [(b_, a) for a in side for b_ in others + [pv.s("nan"), pv.none()]]
+    for fv, rv in pairs:
+        for op in OPS:
+            out.append(dict(filter=opobj(op, fv), recorded=rv, nocoq=True))
+        out.append(dict(filter=fv, recorded=rv, nocoq=True))                       # plain value / list of alternatives
+        out.append(dict(filter=pv.lst([pv.s("x"), opobj("<=", fv), opobj(">=", fv)]), recorded=rv, nocoq=True))
+    for fv in side:
+        for op in OPS:
+            out.append(dict(filter=opobj(op, fv), recorded=None, nocoq=True))      # absent key
+    return out
+
+
+def has_special_float(j):
+    if j is None:
+        return False
+    if j["t"] == "float":
+        return j.get("r") in ("nan", "inf", "-inf")
+    if j["t"] == "list":
+        return any(has_special_float(x) for x in j["v"])
+    if j["t"] == "dict":
+        return any(has_special_float(v) for _, v in j["v"])
+    return False
 
 
 def has_class_pattern(j):
@@ -179,6 +223,9 @@ def features(case):
     fs.add("recorded:" + ("absent" if case["recorded"] is None else case["recorded"]["t"]))
     if has_class_pattern(f):
         fs.add("pattern-with-character-class")
+    for side, j in (("filter", f), ("recorded", case["recorded"])):
+        if has_special_float(j):
+            fs.add(side + ":holds-nan-or-infinity")
     return fs
 
 
@@ -188,7 +235,7 @@ def nontrivial(case):
 
 MANIFEST = dict(
     design_ref='6/C14',
-    text='Coq theorems for every filter and every recorded value (match_value = Ans (match_spec), hence never raises; lifted to the per-key conjunction; legacy TypeError witnesses refuted) over a hand-written model of _match_metadata_value / _operator_filter / match_against_recorded_metadata, for every fnmatch oracle; model tied to /repo on every run by an exhaustive small universe (~9k filter x value pairs) + random deeper pairs evaluated by the real matcher and by the model; direct predicate (never raises, equals the documented meaning, deterministic) on the implementation.',
+    text='Coq theorems for every filter and every recorded value (match_value = Ans (match_spec), hence never raises; lifted to the per-key conjunction; legacy TypeError witnesses refuted) over a hand-written model of _match_metadata_value / _operator_filter / match_against_recorded_metadata, for every fnmatch oracle; model tied to /repo on every run by an exhaustive small universe (~9k filter x value pairs) + random deeper pairs evaluated by the real matcher and by the model, + ~1.5k pairs with NaN / infinities on either side (implementation side only: the answer must equal the comparison Python itself makes); direct predicate (never raises, equals the documented meaning, deterministic) on the implementation.',
     note='Trusted: Coq kernel + vm_compute; hand-written model of Python ==/</<= on the metadata value domain (exact rationals for floats); fnmatch is an oracle (section variable); correspondence harness.',
     technique='Coq proof (structural induction over filters) + exhaustive small-universe correspondence by vm_compute',
 )
